@@ -54,8 +54,12 @@ THEOREMS = [
         "getInterp_code_table_gating", "getInterp_code_table_none",
         "interpList_code_eq_model", "interpState_code_eq_model", "interpState_code_velocity_presence",
         "interpState_code_eq_lerp", "interpList_code_endpoints", "interpList_code_between_linear",
+        # success companions of the interpolating branch (well-formed neighbours => `.ok (.interp f)`, explicit f), the error
+        # exits, the end-to-end segment clause, "reproduces a neighbour at its own timestamp" with the map-conversion caveat
+        "gating_both_ok", "loaded_wellFormed", "getInterpolated_errors", "interp_errors_iff", "interp_success_on_segment",
+        "interp_at_own_timestamp", "interp_at_own_timestamp_not_verbatim",
     ]
-]
+] + ["PEval.Lookup.interpolateFrames_total", "PEval.Lookup.interpolateFrames_total'", "PEval.Lookup.neighbours_bounds"]
 RULE = (
     "seeded random timelines of 0..8 frames (integer micro-second stamps from bases 0, 1e3, 1.6e15, near 1e17; gaps 1..1e5; "
     "mostly sorted, a flagged share with duplicate stamps or unsorted) with 0..5 objects per frame drawn from a pool of "
